@@ -101,7 +101,7 @@ def _states(deep):
 def families(tier):
     deep = tier == 'thorough'
     out = []
-    cfg = dict(bound=3 if deep else 2, cap=30000 if deep else 1500, window=0.7, max_targets=3, horizon=25.0)
+    cfg = dict(bound=4 if deep else 2, cap=30000 if deep else 1500, window=0.7, max_targets=3, horizon=25.0)
     for (sname, names, hs, pre), tmo, par in itertools.product(_states(deep), (None, 0, 0.3), (False, True)):
         if par and sname not in ('paused', 'awaiting_child_A', 'raising'):
             continue
